@@ -33,7 +33,11 @@ def h_rerun(sx):
     cwd = os.getcwd()
     try:
         os.chdir(tmp)
-        w, flags = build_world(sx)
+        extra = None
+        if sx.params.get("opts", {}).get("read_status_in_hooks"):
+            from vlib.stage1 import _status_reader
+            extra = {"hook_probe": _status_reader}      # the usual "if scenario.status == 'failed': ..." in an after hook
+        w, flags = build_world(sx, extra)
         path = os.path.join(tmp, "rerun.txt")
         with open(path, "w") as f:
             f.write("stale.feature:1\n")        # a previous rerun file
@@ -48,6 +52,11 @@ def h_rerun(sx):
             return {"escaped": repr(w.escaped)}
         st = w.status_table()
         bad = [e for e in w.scenario_elems() if st[e.eid] in ERRORLIKE]
+        # ground truth of the harness' own hooks: a scenario one of whose hooks raised did not end successfully
+        for e in w.scenario_elems():
+            if any(str(f[3]).split("/")[0] == e.eid and "step" not in f[1] for f in w.fault_fired):
+                sx.check(st[e.eid] in ERRORLIKE, "C17.scenario-with-raising-hook-is-unsuccessful",
+                         detail=lambda m, e=e: {"scenario": e.eid, "status": st[e.eid], "fired": [list(map(str, f)) for f in w.fault_fired]})
         exists = os.path.exists(path)
         content = open(path).read() if exists else None
         listed = [l.strip() for l in (content or "").splitlines() if l.strip() and not l.startswith("#")]
@@ -96,6 +105,7 @@ def jobs(tier, seed):
                            R([O(1, [(1, [])], name="Happy path")])])], {"out_dom": {"*": [0, 1]}}),
         "hookfault-skip": ([F([S(1, tags=["t1"]), S(1)])], {"hooks": True, "fault": True, "hook_skip_scenario": True, "out_dom": {"*": [0, 1]}, "undef": False}),
         "hookfault": ([F([S(1, tags=["t1"]), R([S(1)], tags=["tr"])], tags=["t0"])], {"hooks": True, "fault": True, "out_dom": {"*": [0, 1]}}),
+        "hookfault-status-read": ([F([S(1, tags=["t1"]), S(1)])], {"hooks": True, "fault": True, "read_status_in_hooks": True, "out_dom": {"*": [0, 1]}}),
     }
     if tier == "thorough":
         shapes.update({
